@@ -526,3 +526,17 @@ Lemma frag_truncate c hto p k :
          (fupd (sl k) (her_trunc_slot p mod c) (mark_end hto (sl k (her_trunc_slot p mod c)))))
   else k.
 Proof. unfold col_truncate, her_trunc_guard, her_trunc_slot. destruct (cur k =? p); reflexivity. Qed.
+
+(* truncate_last_trajectory's marks: dones := True and, under handle_timeout_termination, timeouts := True - the truncated transition is then
+   returned with done = 0 (bootstrapping allowed), without timeout handling with done = 1 *)
+Lemma mark_end_flags hto s :
+  x_done (mark_end hto s) = 1 /\ x_to (mark_end hto s) = (if hto then 1 else x_to s) /\
+  done_mask (x_done (mark_end hto s)) (x_to (mark_end hto s)) = (if hto then 0 else 1 - x_to s) /\
+  x_last (mark_end hto s) = true /\ x_ep (mark_end hto s) = x_ep s /\ x_ix (mark_end hto s) = x_ix s.
+Proof. unfold mark_end, done_mask. cbn [x_done x_to x_last x_ep x_ix]. destruct hto; repeat split; try reflexivity; lia. Qed.
+
+Lemma truncate_marks_newest_slot c hto p k : cur k <> p ->
+  sl (col_truncate c hto p k) ((p - 1) mod c) = mark_end hto (sl k ((p - 1) mod c)).
+Proof.
+  intros H. unfold col_truncate. destruct (Z.eqb_spec (cur k) p); [contradiction|]. cbn [close_episode sl]. unfold fupd. rewrite Z.eqb_refl. reflexivity.
+Qed.
